@@ -11,10 +11,13 @@ CONSTANTS
   NS = 2
   MaxV = 40
   MaxFuncs = 2
-  MaxSuite = 2
+  MaxSuite = 3
   MaxDepth = 1000
   MaxTop = 4
   ExtraT = 0
+  ExtraC = 0
+  ExtraM = 0
+  Coarse = FALSE
 SPECIFICATION Spec
 INVARIANT TypeOK
 INVARIANT NeverStale
